@@ -59,6 +59,8 @@ pub struct SentEv {
     pub flush_tick: u32,
     /// Number of update messages sent to this client up to and including the flush frame.
     pub upd_before: usize,
+    /// Put on the wire in the server frame that is still being drained (`upd_before` not final yet).
+    pub fresh: bool,
     pub stamp: Option<u32>,
     pub delivered: bool,
     pub dropped: bool,
